@@ -188,6 +188,10 @@ theorem validatePropsGroup_eq (props : Grp) (n : Nat) (pk : String) (md : List (
               shape0, Arr.ndim, hd, hm, hs, raiseValueError, issubdtype]
             rcases od with _ | (d | _) <;> rcases om with _ | (m | _) <;> cases pm.varlength <;>
               rcases sh with _ | ⟨s0, _ | ⟨s1, _ | ⟨s2, st⟩⟩⟩ <;> simp [ite_false_swap]
+            -- what is left (nothing, for the source as it is) differs at most in the ORDER of checks that
+            -- raise the same exception: decide every remaining condition, both sides are then the same leaf
+            all_goals repeat' (first | rfl | split)
+            all_goals simp_all
           · simp [isArrayNode, raiseValueError, hv]
   · intro name u
     dsimp only [Geff.Structure.get]
